@@ -61,6 +61,9 @@ def make_fn(poly, twin=False, fixed_tol=None):
             # a point off the closed segment has a strictly positive true detour; it can only be below the tolerance
             # if it is near the segment - no further geometry is needed for the crossing part
             detours.append(det)
+            # counterexamples are preferred at least 0.05 away from the line of every edge (robust to the abstraction)
+            cr = cross(a, b, p)
+            e.prefer.append(z3.Or(lift(cr) >= 0.05 * lab, lift(cr) <= -0.05 * lab))
         r = SH.point_polygon_check([tuple(v) for v in VF], p, on_edge_tolerance=tol)
         if twin:
             return False
